@@ -218,6 +218,10 @@ func (t DeployTransition) do(env *Environment) (err error) {
 	deploymentTimeout := acquireDeploymentTimeout(wf)
 
 	wfStatus := wf.GetStatus()
+	if len(taskDescriptors) == 0 && len(callHooks) == 0 {
+		// nothing to deploy and nothing to activate: the status will never change, don't wait for it
+		wfStatus = task.ACTIVE
+	}
 	if wfStatus != task.ACTIVE {
 		log.WithField("partition", env.Id().String()).
 			Infof("waiting %s for workflow to become active", deploymentTimeout.String())
